@@ -36,6 +36,10 @@ K24 = [bytes(range(1, 25)), bytes(range(60, 84))]
 K32 = [bytes(range(32)), bytes(range(70, 102))]
 D = [bytes(range(0, 16)), bytes(range(16, 48)), bytes(range(48, 64))]
 D2 = [bytes(range(100, 116)), bytes(range(116, 148)), bytes(range(148, 164))]
+# long pieces: past the native 8-block batches, several hash blocks / sponge rates, and KangarooTwelve's 8192-byte chunks (the second
+# piece ends inside a chunk, so each object has a partial chunk pending when the other one is used)
+DL = [bytes(i * 7 & 255 for i in range(300)), bytes(i * 11 & 255 for i in range(9000)), bytes(i * 13 & 255 for i in range(8400))]
+DL2 = [bytes(i * 17 & 255 for i in range(300)), bytes(i * 19 & 255 for i in range(9000)), bytes(i * 23 & 255 for i in range(8400))]
 
 
 # ---------------------------------------------------------------------------
@@ -48,22 +52,22 @@ def _factories():
                              RIPEMD160, keccak, CMAC, HMAC, Poly1305, KMAC128, cSHAKE128, TurboSHAKE128, KangarooTwelve)
     F = {}
 
-    def enc3(mk):
+    def enc3(mk, long=False):
         def f(v):
-            data = D if v == 0 else D2
+            data = (D if v == 0 else D2) if not long else [x[:n] for x, n in zip(DL if v == 0 else DL2, (288, 4096, 2064))]
             return mk(v), [lambda o, d=d: o.encrypt(d) for d in data]
         return f
 
-    def hash3(mk, fin="digest"):
+    def hash3(mk, fin="digest", long=False):
         def f(v):
-            data = D if v == 0 else D2
+            data = (D if v == 0 else D2) if not long else (DL if v == 0 else DL2)
             return mk(v), [lambda o: o.update(data[0]) and None, lambda o: o.update(data[1]) and None,
                            (lambda o: o.digest()) if fin == "digest" else (lambda o: o.read(33))]
         return f
 
-    def aead3(mk):
+    def aead3(mk, long=False):
         def f(v):
-            data = D if v == 0 else D2
+            data = (D if v == 0 else D2) if not long else [x[:4096] for x in (DL if v == 0 else DL2)]
             return mk(v), [lambda o: o.update(data[0]) and None, lambda o: o.encrypt(data[1]), lambda o: o.digest()]
         return f
     for name, mod, keys, bs in (("AES", AES, K16, 16), ("AES256", AES, K32, 16), ("DES3", DES3, K24, 8),
@@ -106,6 +110,24 @@ def _factories():
     F["HMAC-MD4"] = hash3(lambda v: HMAC.new(K16[v], digestmod=MD4))
     F["Poly1305-AES"] = hash3(lambda v: Poly1305.new(key=K32[v], cipher=AES, nonce=bytes(16)))
     F["Poly1305-ChaCha20"] = hash3(lambda v: Poly1305.new(key=K32[v], cipher=ChaCha20, nonce=bytes(12)))
+    # the same with long inputs (bulk / tree / batch code paths)
+    F["KangarooTwelve-long"] = hash3(lambda v: KangarooTwelve.new(custom=b"k%d" % v), "read", long=True)
+    F["TurboSHAKE128-long"] = hash3(lambda v: TurboSHAKE128.new(), "read", long=True)
+    F["SHAKE128-long"] = hash3(lambda v: SHAKE128.new(), "read", long=True)
+    for hm in (MD5, SHA1, SHA256, SHA512, SHA3_256, RIPEMD160):
+        F[hm.__name__.split(".")[-1] + "-long"] = hash3(lambda v, hm=hm: hm.new(), long=True)
+    F["BLAKE2b-long"] = hash3(lambda v: BLAKE2b.new(digest_bits=256), long=True)
+    F["KMAC128-long"] = hash3(lambda v: KMAC128.new(key=K32[v], mac_len=16), long=True)
+    F["CMAC-AES-long"] = hash3(lambda v: CMAC.new(K16[v], ciphermod=AES), long=True)
+    F["HMAC-SHA256-long"] = hash3(lambda v: HMAC.new(K16[v], digestmod=SHA256), long=True)
+    F["Poly1305-AES-long"] = hash3(lambda v: Poly1305.new(key=K32[v], cipher=AES, nonce=bytes(16)), long=True)
+    for mname in ("ECB", "CBC", "CFB", "OFB", "CTR"):
+        kw = {} if mname == "ECB" else {"nonce": bytes(8)} if mname == "CTR" else {"iv": bytes(16)}
+        F["AES-%s-long" % mname] = enc3(lambda v, mname=mname, kw=kw: AES.new(K16[v], getattr(AES, "MODE_" + mname), **kw), long=True)
+    F["ChaCha20-long"] = enc3(lambda v: ChaCha20.new(key=K32[v], nonce=bytes([v]) * 12), long=True)
+    F["GCM-long"] = aead3(lambda v: AES.new(K16[v], AES.MODE_GCM, nonce=bytes([v]) * 12), long=True)
+    F["EAX-long"] = aead3(lambda v: AES.new(K16[v], AES.MODE_EAX, nonce=bytes([v]) * 16), long=True)
+    F["CCM-long"] = aead3(lambda v: AES.new(K16[v], AES.MODE_CCM, nonce=bytes([v]) * 11), long=True)
 
     def point(curve):
         def f(v):
